@@ -397,7 +397,7 @@ fn violation_strategy() -> impl Strategy<Value = Input> {
 }
 
 fn run(ctx: &Ctx) {
-    let n = ctx.share(ctx.tier.pick(1_500_000, 15_000_000));
+    let n = ctx.share(ctx.tier.pick(1_500_000, 90_000_000));
     let strat = (
         prop_oneof![
             4 => boundary_strategy(),
